@@ -12,6 +12,20 @@ Contracts (DESIGN section 2, C02), attached to the real `Smiles.__format__` / `M
   injectivity  all pairs of the domain (decorated atlas incl. every 2^k labelling, all 2^k stereoisomers of sampled corpus molecules):
                str(a) == str(b)  =>  a, b isomorphic incl. configuration (oracles/iso.py + oracles/o01_stereo.py; for corpus stereoisomers
                also RDKit: canonical isomeric SMILES of the two independently flipped texts).
+
+Audit extension (same contracts, domain classes the first version never wrote / read - see bounded/d02_extra.py):
+  reader options   the written text is read with every keyword of `chython.smiles` that must not change what the text denotes
+                   (remap=True: numbers 1..N in written order; ignore=False; keep_implicit=True; ignore_bad_isotopes + ignore_carbon_radicals;
+                   ignore_aromatic_radicals=False on molecules without aromatic atoms) under the full comparison, and with ignore_stereo=True
+                   under the comparison of atoms and bonds (+ no label is stored).
+  numberings       molecules whose atom numbers are not 1..N in order (descending, gaps, four-digit up to 9999, shuffled insertion order).
+  kekule forms     molecules with aromatic rings written from their Kekule form, compared without re-normalisation.
+  atoms order      `mol.smiles_atoms_order`, `str(mol)`, `format(mol, '')` and the ordered route on fresh copies, in the three possible
+                   access orders, give one string and one order; that string read back is the molecule under that order.
+  reaction reader  the written text as the only reactant / reagent / product of a reaction text is read (reaction branch of
+                   `chython.smiles` -> postprocess_molecule) as the same molecule in that role (incl. the CXSMILES radical block).
+  sticky           `sticky_smiles(left[, right])` (terminal atoms, connected, radical-free: the domain of its docstring) is a text of the
+                   same molecule (reference enumerator) that starts with `left` (ends with `right`).
 """
 import itertools
 import math
@@ -21,7 +35,9 @@ from vlib.report import pmap
 from checks.b01 import _h
 
 RULE = ('non-trivial = (canonical string, spec) with >= 2 atoms whose written text was read back and compared; for injectivity '
-        '(canonical string, "inj") of molecules that share the constitution of another domain molecule (stereoisomer families)')
+        '(canonical string, "inj") of molecules that share the constitution of another domain molecule (stereoisomer families); audit '
+        'extension: (canonical string, spec, contract variant) with variant = reader option set / numbering kind / kekule-form / atoms-order / '
+        'reaction role, and (canonical string, "sticky", left, right)')
 
 LETTERS = 'aAmrh'
 ALL_SPECS = [''.join(c) for k in range(len(LETTERS) + 1) for c in itertools.combinations(LETTERS, k)]
@@ -139,6 +155,308 @@ def round_trip(m, spec, rd_ref=None):
     return full, None, used
 
 
+# ---- audit extension: reader options, numberings, Kekule forms, atoms order, reaction reader, sticky ---------------------------
+
+# (name, keywords of chython.smiles, comparison): 'full' = the whole comparison of the statement; 'constitution' = atoms and bonds, and no
+# stored label; 'no-aromatic' = full, on molecules without aromatic atoms only (the option re-interprets bracketed aromatic atoms without
+# hydrogens - what style h writes for every substituted aromatic atom - as radicals: by design outside the statement); 'known-h' = full, on
+# molecules all of whose atoms have a hydrogen count (an atom the valence rules reject has the count None and is written as a bracket atom
+# without H: keep_implicit keeps that 0 and the strict reader rejects the text, both by the definition of the option)
+READER_OPTIONS = (
+    ('remap', {'remap': True}, 'full'),
+    ('strict', {'ignore': False}, 'known-h'),
+    ('keep_implicit', {'keep_implicit': True}, 'known-h'),
+    ('other-flags', {'ignore_bad_isotopes': True, 'ignore_carbon_radicals': True}, 'full'),
+    ('ignore_stereo', {'ignore_stereo': True}, 'constitution'),
+    ('aromatic_radicals', {'ignore_aromatic_radicals': False}, 'no-aromatic'),
+)
+OPT_SPECS = ['', 'a', 'Ah', 'mr', 'aAmrh']
+NUM_SPECS = ['', 'm', 'amh', 'Amr', 'r']
+KEK_SPECS = ['', 'r', 'h', 'am']
+RXN_SPECS = ['', 'mr']
+ROLES = ('reactants', 'reagents', 'products')
+
+
+class _Mismatch(Exception):
+    pass
+
+
+def _write(m, spec):
+    text, order = m.__format__(spec, _return_order=True)
+    cx = m._format_cxsmiles(order)
+    return text, list(order), text + (' ' + cx if cx else '')
+
+
+def _read_cmp(v1, order, full, spec, kwargs, mode='full', normalise=True, pick=None):
+    """read `full` with the reader keywords and compare with the view of the written molecule; None | description"""
+    from bounded import domains as D
+    from chython import smiles
+    try:
+        m2 = smiles(full, **kwargs)
+        if pick is not None:
+            m2 = pick(m2)
+        if normalise:
+            D.norm(m2)
+    except _Mismatch as e:
+        return str(e)
+    except Exception as e:
+        return f'reading the written text back raised {type(e).__name__}: {e}'
+    o2 = list(m2._atoms)
+    if len(o2) != len(order):
+        return f'{len(order)} atoms written, {len(o2)} read back'
+    if kwargs.get('remap'):
+        if o2 != list(range(1, len(o2) + 1)):
+            return f'remap=True: atom numbers are not 1..N in written order: {o2}'
+    elif 'm' in spec and o2 != list(order):
+        return f'atom map numbers not preserved: written {list(order)}, read back {o2}'
+    v2 = view(m2, o2)
+    if mode == 'constitution':
+        for k in ('atoms', 'bonds'):
+            if v1[k] != v2[k]:
+                return _first_diff({**v2, k: v1[k]}, v2)
+        if v2['tetrahedra'] or v2['allenes'] or v2['cis_trans'] or v2['labels_elsewhere'] or v2['bond_labels']:
+            return 'labels stored although the text was read with ignore_stereo=True'
+        return None
+    return _first_diff(v1, v2)
+
+
+def _extra_key(m, relation, ident, variant, spec, full, kwargs, order, d):
+    """known root-cause family (independent predicates on the input) or a key of this input"""
+    from oracles import o02_text as T
+    from oracles.o01_families import c02_family
+    reading = d.startswith('reading')
+    if reading and 'not equal cycle bonds' in d and full and T.strict_reader_asymmetric_closure(full, kwargs):
+        return 'c02:strict-reader-asymmetric-closure'
+    if reading and 'atom token invalid' in d and T.map_over_9999(spec, order or ()):
+        return 'c02:map-over-9999'
+    fam = c02_family(m, [d])
+    if fam:
+        return f'c02:{fam}'
+    return f'{relation}:{_h(ident + variant)}:{ident}:{variant}'
+
+
+def _is_aromatic(m):
+    return any(a.hybridization == 4 for _, a in m.atoms())
+
+
+def option_trips(m, ident, specs=OPT_SPECS, options=READER_OPTIONS):
+    """-> (ncases, keys, failures); failures = [(key, what, witness, native)], first failing style per option"""
+    s0 = str(m)
+    arom = _is_aromatic(m)
+    unknown_h = any(a.implicit_hydrogens is None for _, a in m.atoms())
+    ncases, keys, fails, done = 0, set(), [], set()
+    for spec in specs:
+        try:
+            text, order, full = _write(m, spec)
+        except Exception:
+            continue  # writer failures are reported by the base contract
+        v1 = view(m, order)
+        for name, kw, mode in options:
+            if mode == 'no-aromatic' and arom or mode == 'known-h' and unknown_h:
+                continue
+            d = _read_cmp(v1, order, full, spec, kw, 'constitution' if mode == 'constitution' else 'full')
+            ncases += 1
+            if len(m) > 1:
+                keys.add((s0, spec, 'opt:' + name))
+            if d and name not in done:
+                done.add(name)
+                key = _extra_key(m, 'option', ident, name, spec, full, kw, order, d)
+                fails.append((key, f'C02 write->read with reader option {kw}, spec {spec!r}: {d} [input {ident}, text {full!r}]',
+                              {'relation': 'option', 'option': name, 'spec': spec, 'text': full}, {'canonical': s0, 'difference': d}))
+    return ncases, keys, fails
+
+
+def numbering_trips(rec, ident, kinds, specs, n_rand, r, stop=True):
+    from bounded import d02_extra as X
+    ncases, keys, fails = 0, set(), []
+    for kind in kinds:
+        m, _dropped, wit = X.renumbered(rec, kind, r)
+        s0 = str(m)
+        for spec in specs:
+            bad = None
+            for _rep in range(n_rand if 'r' in spec else 1):
+                text, d, _u = round_trip(m, spec, None)
+                ncases += 1
+                if len(m) > 1:
+                    keys.add((s0, spec, 'num:' + kind))
+                if d and bad is None:
+                    bad = (text, d)
+            if bad:
+                key = _extra_key(m, 'numbering', ident, kind, spec, bad[0], {}, list(m._atoms), bad[1])
+                fails.append((key, f'C02 write->read of a molecule numbered {kind} ({sorted(m._atoms)[:4]}..), spec {spec!r}: {bad[1]} '
+                                   f'[input {ident}, text {bad[0]!r}]',
+                              {'relation': 'numbering', 'numbering': wit, 'spec': spec, 'text': bad[0]}, {'canonical': s0, 'difference': bad[1]}))
+                if stop:
+                    break
+    return ncases, keys, fails
+
+
+def kekule_trips(m, ident, specs, n_rand):
+    """the Kekule form of a molecule with aromatic atoms is a domain molecule of its own: written and read back WITHOUT re-normalisation"""
+    if not _is_aromatic(m):
+        return 0, set(), []
+    k = m.copy()
+    k.kekule()
+    s0 = str(k)
+    ncases, keys, fails = 0, set(), []
+    for spec in specs:
+        for _rep in range(n_rand if 'r' in spec else 1):
+            try:
+                text, order, full = _write(k, spec)
+                d = _read_cmp(view(k, order), order, full, spec, {}, normalise=False)
+            except Exception as e:
+                full, d = None, f'writer raised {type(e).__name__}: {e}'
+            ncases += 1
+            keys.add((s0, spec, 'kekule-form'))
+            if d:
+                key = _extra_key(k, 'kekule-form', ident, 'K', spec, full, {}, None, d)
+                fails.append((key, f'C02 write->read of the Kekule form {s0!r}, spec {spec!r}: {d} [input {ident}, text {full!r}]',
+                              {'relation': 'kekule-form', 'spec': spec, 'text': full}, {'canonical': s0, 'difference': d}))
+                return ncases, keys, fails
+    return ncases, keys, fails
+
+
+def atoms_order_trips(m, ident):
+    """observation point `mol.smiles_atoms_order`: three access orders on fresh copies (each fills the caches of the others)"""
+    c1, c2, c3 = m.copy(), m.copy(), m.copy()
+    d = full = None
+    try:
+        o1 = tuple(c1.smiles_atoms_order)
+        s1 = str(c1)
+        s2 = str(c2)
+        o2 = tuple(c2.smiles_atoms_order)
+        t3, o3 = c3.__format__('', _return_order=True)
+        s3 = str(c3)
+        o3b = tuple(c3.smiles_atoms_order)
+        f3 = format(c3, '')
+        p3 = c3.smiles
+        full = s1
+        if not (s1 == s2 == s3 == f3 == p3):
+            d = f'strings differ by access order: order-first {s1!r}, str-first {s2!r}, ordered route {s3!r}, format {f3!r}, .smiles {p3!r}'
+        elif not (o1 == o2 == tuple(o3) == o3b):
+            d = f'smiles_atoms_order differs by access order: order-first {o1}, str-first {o2}, ordered route {tuple(o3)} / cached {o3b}'
+        elif s1.split(' ')[0] != t3:
+            d = f'str {s1!r} is not the text of the ordered route {t3!r}'
+        else:
+            d = _read_cmp(view(m, list(o1)), list(o1), s1, '', {})
+    except Exception as e:
+        d = f'raised {type(e).__name__}: {e}'
+    if d:
+        key = _extra_key(m, 'atoms-order', ident, 'O', '', full, {}, None, d)
+        return 1, set(), [(key, f'C02 smiles_atoms_order / str: {d} [input {ident}]', {'relation': 'atoms-order', 'text': full},
+                           {'difference': d})]
+    return 1, ({(str(m), '', 'atoms-order')} if len(m) > 1 else set()), []
+
+
+def reaction_trips(m, ident, specs, positions):
+    s0 = str(m)
+    ncases, keys, fails = 0, set(), []
+    for spec in specs:
+        try:
+            text, order, full = _write(m, spec)
+        except Exception:
+            continue
+        if '.' in text:
+            continue  # a dot separates molecules in a reaction text
+        cx = full[len(text):]
+        v1 = view(m, order)
+        for pos in positions:
+            parts = ['', '', '']
+            parts[pos] = text
+            rtext = '>'.join(parts) + cx
+
+            def pick(rxn, pos=pos):
+                got = [len(getattr(rxn, role)) for role in ROLES]
+                if got != [int(i == pos) for i in range(3)]:
+                    raise _Mismatch(f'molecules per role (reactants, reagents, products) {got}, written as one of the {ROLES[pos]}')
+                return getattr(rxn, ROLES[pos])[0]
+            d = _read_cmp(v1, order, rtext, spec, {}, pick=pick)
+            ncases += 1
+            if len(m) > 1:
+                keys.add((s0, spec, 'rxn:' + ROLES[pos]))
+            if d:
+                key = _extra_key(m, 'reaction', ident, ROLES[pos], spec, rtext, {}, order, d)
+                fails.append((key, f'C02 write->read inside a reaction text ({ROLES[pos]}), spec {spec!r}: {d} [input {ident}, text {rtext!r}]',
+                              {'relation': 'reaction', 'role': pos, 'spec': spec, 'text': rtext}, {'canonical': s0, 'difference': d}))
+                return ncases, keys, fails
+    return ncases, keys, fails
+
+
+def _sig(a):
+    return a.atomic_number, a.isotope, a.charge, a.is_radical, a.implicit_hydrogens
+
+
+def sticky_trips(m, ident, r, n_left=3):
+    """domain of the docstring of sticky_smiles: connected, terminal left / right atoms; radical-free because the method writes no CXSMILES"""
+    from bounded import domains as D
+    from oracles.o01_stereo import stereo_isomorphic
+    from chython import smiles
+    if len(m) < 2 or len(m) > 16 or m.connected_components_count != 1 or m.is_radical:
+        return 0, set(), []
+    term = [n for n in m._atoms if len(m._bonds[n]) == 1]
+    if not term:
+        return 0, set(), []
+    s0 = str(m)
+    ncases, keys, fails = 0, set(), []
+    for left in r.sample(term, min(n_left, len(term))):
+        others = [n for n in term if n != left]
+        right = r.choice(others) if others and r.random() < .6 else None
+        d = text = None
+        try:
+            text = m.sticky_smiles(left, right, tries=200) if right else m.sticky_smiles(left)
+        except Exception as e:
+            if 'generation of smiles failed' in str(e):
+                continue  # documented outcome of the bounded number of tries
+            d = f'sticky_smiles({left}, {right}) raised {type(e).__name__}: {e}'
+        if d is None:
+            try:
+                m2 = D.norm(smiles(text))
+                o2 = list(m2._atoms)
+                if _sig(m2._atoms[o2[0]]) != _sig(m._atoms[left]):
+                    d = f'the text does not start with the left atom {left}'
+                elif right and _sig(m2._atoms[o2[-1]]) != _sig(m._atoms[right]):
+                    d = f'the text does not end with the right atom {right}'
+                elif stereo_isomorphic(m, m2) is False:
+                    d = f'the text denotes another molecule (reference enumerator), read back as {str(m2)!r}'
+            except Exception as e:
+                d = f'reading the written text back raised {type(e).__name__}: {e}'
+        ncases += 1
+        keys.add((s0, 'sticky', left, right))
+        if d:
+            key = _extra_key(m, 'sticky', ident, f'{left},{right}', '', text, {}, None, d)
+            fails.append((key, f'C02 sticky_smiles({left}, {right}): {d} [input {ident}, text {text!r}]',
+                          {'relation': 'sticky', 'left': left, 'right': right, 'text': text}, {'canonical': s0, 'difference': d}))
+            break
+    return ncases, keys, fails
+
+
+def extra_trips(m, rec, ident, flags, tier_quick, tag):
+    """the audit-extension contracts selected by `flags` on one normalised molecule -> (ncases, keys, failures)"""
+    from bounded import domains as D, d02_extra as X
+    ncases, keys, fails = 0, set(), []
+
+    def add(res):
+        nonlocal ncases
+        ncases += res[0]
+        keys.update(res[1])
+        fails.extend(res[2])
+    if 'S' in flags:
+        add(atoms_order_trips(m, ident))
+    if 'O' in flags:
+        add(option_trips(m, ident))
+    if 'K' in flags:
+        add(kekule_trips(m, ident, KEK_SPECS, 2))
+    if 'R' in flags:
+        add(reaction_trips(m, ident, RXN_SPECS, (D.rnd(f'{tag}:rxn:{ident}').randrange(3),) if tier_quick else (0, 1, 2)))
+    if 'N' in flags:
+        add(numbering_trips(rec, ident, X.NUMBERINGS, NUM_SPECS, 2, D.rnd(f'{tag}:num:{ident}')))
+    if 'T' in flags:
+        add(sticky_trips(m, ident, D.rnd(f'{tag}:sticky:{ident}')))
+    if 'F' in flags:
+        add(numbering_trips(rec, ident, ('five-digit',), ['', 'm', 'mr'], 2, D.rnd(f'{tag}:num5:{ident}'), stop=False))
+    return ncases, keys, fails
+
+
 # ---- workers ------------------------------------------------------------------------------------------------------------------
 
 def _eval_molecule(ident, m, specs, n_rand, use_rdkit=True):
@@ -175,7 +493,7 @@ def _family(m, bad):
 def _atlas_worker(job):
     import random
     from bounded import domains as D, d01_molgen as G
-    recs, specs, n_rand, tag = job
+    recs, specs, n_rand, tag, flags, quick = job
     out = []
     for rec in recs:
         random.seed(f'{env.SEED}:{tag}:{rec["id"]}')  # the library's random writer draws from the global generator
@@ -184,7 +502,8 @@ def _atlas_worker(job):
         anchor = rec['id'].startswith('anchor:')  # fixed witnesses of the recorded defect families: enough draws to fire in every run
         s0, ncases, keys, bad, nrd = _eval_molecule(rec['id'], m, specs, 60 if anchor else n_rand, use_rdkit=len(rec['atoms']) <= 60)
         nst = sum(a.stereo is not None for _, a in m.atoms()) + sum(b.stereo is not None for *_, b in m.bonds())
-        out.append((rec['id'], s0, ncases, keys, bad, nrd, nst, _family(m, bad)))
+        xn, xkeys, xfails = extra_trips(m, rec, rec['id'], flags.get(rec['id'], ''), quick, tag)
+        out.append((rec['id'], s0, ncases + xn, keys | xkeys, bad, nrd, nst, _family(m, bad), xn, xfails))
     return out
 
 
@@ -225,13 +544,17 @@ def _corpus_worker(job):
     import random
     from bounded import domains as D, d01_molgen as G
     from oracles.o01_stereo import stereo_isomorphic
-    texts, specs, n_rand, iso_specs, max_k, tag = job
+    texts, specs, n_rand, iso_specs, max_k, tag, flags, quick = job
     out = []
     for text in texts:
         random.seed(f'{env.SEED}:{tag}:{text}')
         r = D.rnd(f'{tag}:{text}')
         m = D.parse(text)
         s0, ncases, keys, bad, nrd = _eval_molecule(text, m, specs, n_rand)
+        fl = flags.get(text, '')
+        xn, xkeys, xfails = extra_trips(m, G.rec_of(m, text) if 'N' in fl else None, text, fl, quick, tag)
+        ncases += xn
+        keys |= xkeys
         fams = {(): _family(m, bad)}
         fam = []
         inj_bad = []
@@ -264,7 +587,7 @@ def _corpus_worker(job):
                 elif ra is not None and rb is not None and ra != rb:
                     inj_bad.append((sorted(sa), sorted(sb), fa, f'RDKit canonical isomeric SMILES differ: {ra!r} vs {rb!r}'))
             fam = [(fs, sorted(sub)) for sub, fs, _, _ in members]
-        out.append((text, s0, ncases, keys, bad, nrd, k, fam, inj_bad, fams))
+        out.append((text, s0, ncases, keys, bad, nrd, k, fam, inj_bad, fams, xn, xfails))
     return out
 
 
@@ -318,6 +641,8 @@ def bounded(run):
     _closure_contract(run)
 
     recs = G.atlas_records(max_nodes, trials) + G.ion_records()
+    if quick:  # single-label (partially specified) variants only in the thorough tier: time budget
+        recs = [rec for rec in recs if '/only' not in rec['id']]
     for s in G.SPECIAL_SMILES:
         recs.append(G.rec_of(D.parse(s), f'special:{s}'))
     recs += G.expander_records(36, 2 if quick else 4) + (G.expander_records(60, 2, tag='expander60') if not quick else [])
@@ -325,15 +650,41 @@ def bounded(run):
     anchors = [G.rec_of(D.parse(s), f'anchor:{s}') for fam in ANCHORS.values() for s in fam]
     run.bound(f'anchors: {len(anchors)} fixed witnesses of the recorded defect families (oracles/o01_families.py), identical in every tier / seed, '
               f'all 32 specs x 60 random orders for specs with r')
-    recs = anchors + recs
+    from bounded import d02_extra as X
+    extra = X.extra_records()
+    recs = anchors + extra + recs
     by_id = {rec['id']: rec for rec in recs}
+    # audit extension: which additional contracts run on which molecule (S atoms order, K Kekule form, O reader options, R reaction reader,
+    # N numberings, T sticky, F the five-digit numbering witness)
+    oq, nq, rq, tq = (5, 10, 5, 10) if quick else (2, 3, 2, 3)
+    flags = {rec['id']: 'SKORNT' for rec in anchors + extra}
+    flags[extra[0]['id']] += 'F'
+    for i, rec in enumerate(recs[len(anchors) + len(extra):]):
+        hand = rec['id'].startswith('special:')
+        flags[rec['id']] = 'SK' + ('O' if hand or i % oq == 0 else '') + ('R' if hand or i % rq == 1 else '') + \
+                           ('N' if hand or i % nq == 3 else '') + ('T' if hand or i % tq == 7 % tq else '')
+    nfl = {c: sum(c in f for f in flags.values()) for c in 'SKORNT'}
+    run.bound(f'audit extension, atlas domain (+ {len(extra)} hand-written inputs of bounded/d02_extra.py: stereo after a dot, explicit H on stereo '
+              f'elements, cyclic allenes, hetero / exocyclic / macrocyclic cis-trans, ring-fusion centres, aromatic B P Se charged isotopic anionic '
+              f'rings, charges to +-4, three-digit isotopes, bare atoms, any-order bonds; all specs like the rest): atoms-order contract on '
+              f'{nfl["S"]} molecules; Kekule forms of every molecule with aromatic atoms among {nfl["K"]} x specs {KEK_SPECS} (2 orders for r); '
+              f'{len(READER_OPTIONS)} reader option sets {[o[0] for o in READER_OPTIONS]} x specs {OPT_SPECS} on {nfl["O"]} molecules; reaction '
+              f'reader x specs {RXN_SPECS} x {"one seeded role" if quick else "3 roles"} on {nfl["R"]} molecules (texts without a dot); numberings '
+              f'{list(X.NUMBERINGS)} (atom numbers <= 9999) x specs {NUM_SPECS} (2 orders for r) on {nfl["N"]} molecules; sticky_smiles '
+              f'(<= 3 terminal left atoms, seeded right atom, <= 16 atoms, connected, radical-free) on {nfl["T"]} molecules; one fixed '
+              f'five-digit numbering witness')
+    run.assume('the reader keywords remap / ignore=False / keep_implicit / ignore_bad_isotopes / ignore_carbon_radicals (and '
+               'ignore_aromatic_radicals=False on molecules without aromatic atoms) do not change what a well-formed written text denotes; '
+               'ignore_stereo=True keeps atoms and bonds (docstring of chython.smiles)',
+               'a ring system > 99 simultaneously open closures and the empty molecule have no SMILES text: outside the domain')
     run.bound(f'decorated graph atlas <= {max_nodes} nodes ({trials} seeded decorations, 2x for trees; charges to +-3, isotopes, radicals, '
               f'spectator components, every 2^k labelling k <= 4 of perceived stereo elements) + hand-written + 4-regular 36/60-atom carbon '
               f'graphs (two-digit closures): {len(recs)} molecules x all {len(ALL_SPECS)} subsets of {{a,A,m,r,h}} x {n_rand} random orders for '
               f'specs with r')
     rs = anchors + sorted(recs[len(anchors):], key=lambda x: -len(x['atoms']))
     nchunk = max(env.NPROC * 6, 1)
-    jobs = [(rs[i::nchunk], specs_small, n_rand, 'b02a') for i in range(nchunk) if rs[i::nchunk]]
+    jobs = [(rs[i::nchunk], specs_small, n_rand, 'b02a', {r_['id']: flags[r_['id']] for r_ in rs[i::nchunk]}, quick)
+            for i in range(nchunk) if rs[i::nchunk]]
     atlas_res = [x for part in pmap(_atlas_worker, jobs) for x in part]
     atlas_res.sort(key=lambda x: (not x[0].startswith('anchor:'),))  # anchors first: they become the recorded witnesses
 
@@ -342,16 +693,29 @@ def bounded(run):
     run.bound(f'corpus: {len(texts)} distinct SMILES of pach/lipophilicity.csv x {len(specs_corpus)} specs x {n_rand} random orders for specs '
               f'with r; all 2^k stereoisomers (k <= 4 labelled elements, seeded choice above) of every sampled molecule with stereo '
               f'labels, each written / read back in the styles {iso_specs}')
+    oq, nq, rq = (3, 5, 3) if quick else (4, 8, 4)
+    cflags = {t: 'SK' + ('O' if j % oq == 0 else '') + ('N' if j % nq == 1 else '') + ('R' if j % rq == 2 else '') for j, t in enumerate(texts)}
+    nfl = {c: sum(c in f for f in cflags.values()) for c in 'SKORN'}
+    run.bound(f'audit extension, corpus: atoms-order contract and Kekule forms (specs {KEK_SPECS}) on all {nfl["S"]} molecules; reader option '
+              f'sets x specs {OPT_SPECS} on {nfl["O"]}; numberings x specs {NUM_SPECS} on {nfl["N"]}; reaction reader on {nfl["R"]}')
     nchunk = max(env.NPROC * 4, 1)
-    jobs = [(texts[i::nchunk], specs_corpus, n_rand, iso_specs, 4, 'b02c') for i in range(nchunk) if texts[i::nchunk]]
+    jobs = [(texts[i::nchunk], specs_corpus, n_rand, iso_specs, 4, 'b02c', {t: cflags[t] for t in texts[i::nchunk]}, quick)
+            for i in range(nchunk) if texts[i::nchunk]]
     corpus_res = [x for part in pmap(_corpus_worker, jobs) for x in part]
 
     notes = {'molecules': 0, 'stereo_molecules': 0, 'rdkit_cross_checks': 0, 'corpus_stereo_families': 0, 'stereoisomers_enumerated': 0,
-             'injectivity_pairs_judged': 0, 'injectivity_undecided': 0, 'stereo_elements_in_domain': 0}
+             'injectivity_pairs_judged': 0, 'injectivity_undecided': 0, 'stereo_elements_in_domain': 0, 'audit_extension_evaluations': 0}
     by_string = {}
     k = 0
-    for ident, s0, ncases, keys, bad, nrd, nst, fam_key in atlas_res:
+
+    def report_extra(domain, ident, xn, xfails, record=None):
+        notes['audit_extension_evaluations'] += xn
+        for key, what, wit, native in xfails:
+            run.violation(key, ('[family ' + key[4:] + '] ' if key.startswith('c02:') else '') + what,
+                          witness={**wit, 'domain': domain, 'input': ident, **({'record': record} if record is not None else {})}, native=native)
+    for ident, s0, ncases, keys, bad, nrd, nst, fam_key, xn, xfails in atlas_res:
         k += 1
+        report_extra('atlas', ident, xn, xfails, by_id[ident])
         notes['molecules'] += 1
         notes['stereo_molecules'] += bool(nst)
         notes['stereo_elements_in_domain'] += nst
@@ -369,8 +733,9 @@ def bounded(run):
                           (f' (also specs {[b[0] for b in bad[1:]]})' if len(bad) > 1 else ''),
                           witness={'relation': 'roundtrip', 'domain': 'atlas', 'input': ident, 'record': by_id[ident], 'spec': spec,
                                    'text': text}, native={'canonical': s0, 'differences': {b[0]: [b[1], b[2]] for b in bad}})
-    for text, s0, ncases, keys, bad, nrd, nst, fam, inj_bad, fams in corpus_res:
+    for text, s0, ncases, keys, bad, nrd, nst, fam, inj_bad, fams, xn, xfails in corpus_res:
         k += 1
+        report_extra('corpus', text, xn, xfails)
         notes['molecules'] += 1 + max(0, len(fam) - 1)
         notes['stereo_molecules'] += len(fam)
         notes['stereo_elements_in_domain'] += nst
@@ -466,6 +831,8 @@ def replay(rec):
         m = D.parse(w['input'])
         if w.get('flip'):
             m = D.norm(G.build_rec(G.flip(G.rec_of(m, w['input']), set(w['flip'])))[0])
+    if rel in ('option', 'numbering', 'kekule-form', 'atoms-order', 'reaction', 'sticky'):
+        return _replay_extra(rel, w, m)
     spec = w['spec']
     ok = True
     for _ in range(40 if 'r' in spec else 1):  # random orders: the witness text is one draw, try a number of them
@@ -484,3 +851,60 @@ def replay(rec):
             print('  recorded text raised', repr(e))
             ok = False
     return ok
+
+
+def _replay_extra(rel, w, m):
+    """audit-extension relations: the contract is re-run natively on the rebuilt molecule (random styles: 40 draws)"""
+    import random
+    from bounded import domains as D, d01_molgen as G
+    from checks.b01 import _unjson
+    ident = w.get('input', '?')
+    spec = w.get('spec', '')
+    reps = 40 if 'r' in spec else 1
+    fails = []
+    if rel == 'option':
+        opts = [o for o in READER_OPTIONS if o[0] == w['option']]
+        for _ in range(reps):
+            fails += option_trips(m, ident, [spec], opts)[2]
+        # the recorded text itself, read with the option
+        kw, mode = opts[0][1], opts[0][2]
+        if not fails and w.get('text'):
+            from chython import smiles
+            try:
+                m2 = smiles(w['text'], **kw)
+                print('  recorded text', w['text'], 'read with', kw, 'as', str(m2))
+            except Exception as e:
+                print('  recorded text', w['text'], 'read with', kw, 'raised', repr(e))
+                return False
+    elif rel == 'numbering':
+        nb = w['numbering']
+        rec = _unjson(w['record']) if w.get('record') is not None else G.rec_of(m, ident)
+        m2, _ = G.build_rec(rec, nb['perm'], nb['node_order'], nb['edge_order'], set(nb['flip_edges']), offset=nb['offset'])
+        D.norm(m2)
+        for _ in range(reps):
+            text, d, _u = round_trip(m2, spec, None)
+            if d:
+                fails.append((None, f'text {text!r}: {d}'))
+                break
+    elif rel == 'kekule-form':
+        fails = kekule_trips(m, ident, [spec], reps)[2]
+    elif rel == 'atoms-order':
+        fails = atoms_order_trips(m, ident)[2]
+    elif rel == 'reaction':
+        for _ in range(reps):
+            fails += reaction_trips(m, ident, [spec], (w['role'],))[2]
+    elif rel == 'sticky':
+        class _R(random.Random):  # the recorded pair of terminal atoms
+            def sample(self, pop, k):
+                return [w['left']]
+
+            def choice(self, seq):
+                return w['right']
+
+            def random(self):
+                return 0.0 if w['right'] else 1.0
+        for _ in range(20):
+            fails += sticky_trips(m, ident, _R(), 1)[2]
+    for f in fails[:3]:
+        print('  ', f[1])
+    return not fails
